@@ -1741,3 +1741,13 @@ M("C15-nested-ignores-forget-outer-macros", "C15", "src/cppparser/cppPreprocesso
 M("C15-benign-nested-ignores-assigned", "C15", "src/cppparser/cppPreprocessor.cxx",
   "          CPPManifest::Ignores nested_ignores(ignores);", "          CPPManifest::Ignores nested_ignores = ignores;",
   benign=True)
+
+# ---------------------------------------------------------------- R17.8 (seed S7-C17)
+M("C17-dotdot-cancels-dotdot", "C17", "src/dtoolutil/filename.cxx",
+  "    } else if (component == \"..\" && !components.empty() &&\n               !(components.back() == \"..\")) {",
+  "    } else if (component == \"..\" && !components.empty()) {",
+  expect="R17.8|standardize|pop_back#")
+M("C17-benign-dotdot-test-not-equal", "C17", "src/dtoolutil/filename.cxx",
+  "    } else if (component == \"..\" && !components.empty() &&\n               !(components.back() == \"..\")) {",
+  "    } else if (component == \"..\" && !components.empty() &&\n               components.back() != \"..\") {",
+  benign=True)
